@@ -50,9 +50,28 @@ theorem sendRel_trans {a b c : Endpoint} (h1 : SendRel a b) (h2 : SendRel b c) :
 theorem sendPacket_nofire (e : Endpoint) (p : Pkt) (h : (e.authComplete && e.kexComplete && e.rekeyDue) = false) :
     sendPacket e p =
       if mustDefer e p.type then { e with deferred := e.deferred ++ [p] }
-      else emit (if e.sendEpoch ≠ 0 ∧ p.type > MSG_KEX_LAST then emit e ⟨MSG_IGNORE, 0⟩ else e) p := by
+      else if e.sendEpoch ≠ 0 ∧ p.type > MSG_KEX_LAST then
+        (if (sendIgnore e).kexComplete then emit (sendIgnore e) p
+         else { sendIgnore e with deferred := (sendIgnore e).deferred ++ [p] })
+      else emit e p := by
   unfold sendPacket
   simp only [h, Bool.false_eq_true, if_false]
+
+/-- the nested IGNORE call when nothing is due and the clock has not passed the limit in between -/
+theorem sendIgnore_quiet (e : Endpoint) (ha : e.authComplete = true) (hk : e.kexComplete = true)
+    (hd : e.rekeyDue = false) (hl : e.lateArmed = false) :
+    sendIgnore e = emit e ⟨MSG_IGNORE, 0⟩ := by
+  obtain ⟨sv, ks, kc, ka, aip, ac, rd, la, df, se, re, nr, sid, out, dl, fl⟩ := e
+  simp only at ha hk hd hl
+  subst ha hk hd hl
+  simp [sendIgnore, emit]
+
+/-- ... and when the clock HAS passed the limit between the two readings: the nested call starts the exchange -/
+theorem sendIgnore_late (e : Endpoint) (ha : e.authComplete = true) (hk : e.kexComplete = true)
+    (hd : e.rekeyDue = false) (hl : e.lateArmed = true) :
+    sendIgnore e =
+      emit { sendKexinit { e with lateArmed := false } with kexinitSent := true } ⟨MSG_IGNORE, 0⟩ := by
+  simp [sendIgnore, ha, hk, hd, hl]
 
 theorem sendPacket_app (e : Endpoint) (p : Pkt) (hl : Loc e) (hp : MSG_KEX_LAST < p.type) :
     SendRel e (sendPacket e p) := by
@@ -79,20 +98,20 @@ theorem sendPacket_app (e : Endpoint) (p : Pkt) (hl : Loc e) (hp : MSG_KEX_LAST 
     · simp [sendPacket, ha, hfire.1, hfire.2, sendKexinit, emit, mustDefer, hd]
   · have hnf : (e.authComplete && e.kexComplete && e.rekeyDue) = false := by
       cases h1 : e.kexComplete <;> cases h2 : e.rekeyDue <;> simp_all
-    have hst : startIf e.rekeyDue (absE e) = (absE e, []) := by
-      cases h1 : e.kexActive <;> cases h2 : e.kexinitSent <;> cases h3 : e.rekeyDue <;>
-        simp_all [startIf, absE]
     have hmd : mustDefer e p.type = !e.kexComplete := by
       simp only [mustDefer, hd, ha]
       simp
-    refine ⟨e.rekeyDue, ?_⟩
-    rw [hst, sendPacket_nofire e p hnf, hmd]
+    rw [sendPacket_nofire e p hnf, hmd]
     cases hkc : e.kexComplete with
     | false =>
       have hkk : (!e.kexActive && !e.kexinitSent) = false := by rw [← hk]; exact hkc
-      refine ⟨[], ?_, rfl, ?_, ?_, ?_⟩
+      have hst : startIf e.rekeyDue (absE e) = (absE e, []) := by
+        cases h1 : e.kexActive <;> cases h2 : e.kexinitSent <;> cases h3 : e.rekeyDue <;>
+          simp_all [startIf, absE]
+      refine ⟨e.rekeyDue, [], ?_, ?_, ?_, ?_, ?_⟩
       · simp
-      · simp [absE]
+      · rw [hst]; rfl
+      · rw [hst]; simp [absE]
       · refine ⟨?_, ?_, ?_, ?_⟩
         · simpa using ha
         · simpa [hkc] using hkk.symm
@@ -105,28 +124,58 @@ theorem sendPacket_app (e : Endpoint) (p : Pkt) (hl : Loc e) (hp : MSG_KEX_LAST 
       · simp
     | true =>
       have hkk : (!e.kexActive && !e.kexinitSent) = true := by rw [← hk]; exact hkc
+      have hA : e.kexActive = false := by simp at hkk; exact hkk.1
+      have hS : e.kexinitSent = false := by simp at hkk; exact hkk.2
+      have hrd : e.rekeyDue = false := by
+        cases h : e.rekeyDue with
+        | false => rfl
+        | true => exact absurd ⟨hkc, h⟩ hfire
       by_cases hse : e.sendEpoch = 0
-      · refine ⟨[⟨p, e.sendEpoch, false⟩], ?_, ?_, ?_, ?_, ?_⟩
+      · refine ⟨false, [⟨p, e.sendEpoch, false⟩], ?_, ?_, ?_, ?_, ?_⟩
         · simp [hse, emit, hkc]
-        · simp [cproj, hc]
-        · simp [hse, emit, absE]
+        · simp [cproj, hc, startIf]
+        · simp [hse, emit, absE, startIf]
         · refine ⟨?_, ?_, ?_, ?_⟩
           · simpa [hse, emit] using ha
           · simpa [hse, emit, hkc] using hkk.symm
           · simpa [hse, emit] using hx
           · simpa [hse, emit] using hq
         · simp [hse, emit]
-      · refine ⟨[⟨⟨MSG_IGNORE, 0⟩, e.sendEpoch, false⟩, ⟨p, e.sendEpoch, false⟩], ?_, ?_, ?_, ?_, ?_⟩
-        · simp [hse, emit, hp, hkc]
-        · have hi : ctlOf MSG_IGNORE = none := by decide
-          simp [cproj, hc, hi]
-        · simp [hse, emit, absE, hp]
-        · refine ⟨?_, ?_, ?_, ?_⟩
-          · simpa [hse, emit, hp] using ha
-          · simpa [hse, emit, hp, hkc] using hkk.symm
-          · simpa [hse, emit, hp] using hx
-          · simpa [hse, emit, hp] using hq
-        · simp [hse, emit, hp]
+      · have hcond : e.sendEpoch ≠ 0 ∧ p.type > MSG_KEX_LAST := ⟨hse, hp⟩
+        simp only [Bool.not_true, Bool.false_eq_true, if_false]
+        rw [if_pos hcond]
+        have hi : ctlOf MSG_IGNORE = none := by decide
+        cases hla : e.lateArmed with
+        | false =>
+          rw [sendIgnore_quiet e ha hkc hrd hla]
+          have hkc2 : (emit e ⟨MSG_IGNORE, 0⟩).kexComplete = true := hkc
+          rw [if_pos hkc2]
+          refine ⟨false, [⟨⟨MSG_IGNORE, 0⟩, e.sendEpoch, false⟩, ⟨p, e.sendEpoch, false⟩], ?_, ?_, ?_, ?_, ?_⟩
+          · simp [emit, hkc]
+          · simp [cproj, hc, hi, startIf]
+          · simp [emit, absE, startIf]
+          · exact ⟨ha, by simpa [emit, hkc] using hkk.symm, by simpa [emit] using hx, by simpa [emit] using hq⟩
+          · simp [emit]
+        | true =>
+          rw [sendIgnore_late e ha hkc hrd hla]
+          have hkc2 : (emit { sendKexinit { e with lateArmed := false } with kexinitSent := true }
+              ⟨MSG_IGNORE, 0⟩).kexComplete = false := rfl
+          rw [if_neg (by rw [hkc2]; simp)]
+          refine ⟨true, [⟨⟨MSG_KEXINIT, 0⟩, e.sendEpoch, true⟩, ⟨⟨MSG_IGNORE, 0⟩, e.sendEpoch, true⟩], ?_, ?_, ?_, ?_, ?_⟩
+          · simp [sendKexinit, emit]
+          · have hk20 : ctlOf MSG_KEXINIT = some .kexinit := by decide
+            simp [cproj, hk20, hi, startIf, absE, hA, hS]
+          · simp [sendKexinit, emit, startIf, absE, hA, hS]
+          · refine ⟨?_, ?_, ?_, ?_⟩
+            · simpa [sendKexinit, emit] using ha
+            · simp [sendKexinit, emit, hA]
+            · simp [sendKexinit, emit, hA]
+            · intro q hq'
+              simp [sendKexinit, emit] at hq'
+              rcases hq' with h | h
+              · exact hq q h
+              · rw [h]; exact hp
+          · simp [sendKexinit, emit]
 
 theorem foldl_sendPacket_app (l : List Pkt) (e : Endpoint) (hl : Loc e) (hp : ∀ p ∈ l, MSG_KEX_LAST < p.type) :
     SendRel e (l.foldl sendPacket e) := by
